@@ -8,6 +8,9 @@ pub use rb::search::{get_best_move_entry, get_best_move_until_stop, Transpositio
 use std::sync::atomic::{AtomicBool, Ordering::Relaxed};
 use std::time::{Duration, Instant};
 
+/// exit code of a shard whose in-process search ignored the stop flag
+pub const HANG_EXIT_CODE: i32 = 86;
+
 pub fn new_table() -> TranspositionTable {
     TranspositionTable::default()
 }
@@ -55,6 +58,16 @@ pub fn run_search(g: &Game, table: &mut TranspositionTable, depth: Option<u8>, w
                 if Instant::now() >= deadline {
                     *fired_at.lock().unwrap() = Some(Instant::now());
                     flag.store(false, Relaxed);
+                    // a search that does not come back within 25 s of the stop can never be ended from
+                    // inside this process: leave with the exit code the parent reads as "hung"
+                    let give_up = Instant::now() + Duration::from_secs(25);
+                    while !done.load(Relaxed) {
+                        if Instant::now() >= give_up {
+                            eprintln!("vcheck: search ignored the stop flag for 25 s; shard gives up (exit {})", HANG_EXIT_CODE);
+                            std::process::exit(HANG_EXIT_CODE);
+                        }
+                        std::thread::sleep(Duration::from_millis(5));
+                    }
                     break;
                 }
                 std::thread::sleep(Duration::from_millis(2));
